@@ -103,6 +103,7 @@ ssize_t getrandom(void *buf, size_t len, unsigned int flags)
     if (!S.active) { if (!real) real = (ssize_t (*)(void *, size_t, unsigned int))dlsym(RTLD_NEXT, "getrandom"); return real(buf, len, flags); }
     S.used[0]++;
     if (!script_step(&sr)) return -1;
+    if (sr) { size_t part = len > 10 ? 10 : len / 2; os_bytes((uint8_t *)buf, part); return (ssize_t)part; }
     os_bytes((uint8_t *)buf, len);
     return (ssize_t)len;
 }
@@ -128,6 +129,7 @@ long syscall(long nr, ...)
         int sr;
         S.used[2]++;
         if (!script_step(&sr)) return -1;
+        if (sr) { size_t part = (size_t)a2 > 10 ? 10 : (size_t)a2 / 2; os_bytes((uint8_t *)a1, part); return (long)part; }
         os_bytes((uint8_t *)a1, (size_t)a2);
         return a2;
     }
@@ -182,6 +184,11 @@ static int count_fds(void)
 
 static unsigned long long n_errno_sweep, n_sleeps, n_count_differs, n_usable, n_prim_used, n_eval, n_success, n_permanent, n_os_calls, n_prng, n_long, n_fd_census;
 static int want_prim = 0;
+/* set for scripts that hand a getrandom-style source a short count before a permanent error.  getrandom(2) never does that
+ * for 32 bytes, so what a source makes of the short count itself is not judged (the unchanged source takes it as success);
+ * judged is only the property's own sentence: a call that reports failure leaves an all-zero seed buffer. */
+static int g_short_then_permanent = 0;
+static unsigned long long n_short_then_permanent, n_short_reached_error;
 
 static void run_script(const args_t *a, long idx, const unsigned char *pre, long npre, int all_eintr, int end, int via_prng)
 {
@@ -238,7 +245,13 @@ static void run_script(const args_t *a, long idx, const unsigned char *pre, long
         if (sigsetjmp(S.spin, 1) == 0) { S.active = 1; rc = tinyjambu_trng_generate(buf); S.active = 0; }
         else { S.active = 0; emit_viol("trng-spins", "entropy source kept calling the OS after the script ended (%ld calls, script length %ld)", S.pos, npre + 1); return; }
         if (buf[32] != junk) emit_viol("trng-wrote-past-32", "seed buffer overrun");
-        if (expect_ok) {
+        if (g_short_then_permanent) {
+            ++n_short_then_permanent;
+            if (!rc) {
+                ++n_short_reached_error;
+                for (i = 0; i < 32; ++i) if (buf[i] != 0) { emit_viol("trng-buffer-not-zeroed", "seed buffer byte %d is %02x after a reported failure (short count, then %s)", i, buf[i], END_NAME[end]); break; }
+            }
+        } else if (expect_ok) {
             ++n_success;
             if (!rc) emit_viol("trng-gives-up-on-transient", "returned 0 although the OS call succeeded after %ld transient errors", npre);
             else { MSAN_CHECK(buf, 32); if (memcmp(buf, S.bytes, 32)) emit_viol("trng-bytes-differ", "returned bytes are not the 32 bytes the OS provided"); }
@@ -290,6 +303,24 @@ int main(int argc, char **argv)
           run_script(&a, idx, pre, k, 0, E_EPERM, (int)((idx / 3) % 7 == 0)); ++n_errno_sweep;
           g_end_errno = 0;
       } }
+    /* a short count from a getrandom-style call somewhere before a permanent error (see g_short_then_permanent) */
+    if (!dev && want_prim != 1) {
+        for (k = 1; k <= 4; ++k) {
+            long total = 1;
+            for (m = 0; m < k; ++m) total *= 3;
+            for (m = 0; m < total; ++m) {
+                long v = m; int j, has_short = 0;
+                for (j = 0; j < k; ++j) { pre[j] = (unsigned char)(1 + v % 3); v /= 3; if (pre[j] == T_SHORT) has_short = 1; }
+                if (!has_short) continue;
+                for (e = E_EPERM; e < E_OPENFAIL; ++e, ++idx) {
+                    if (!mine(&a, idx)) continue;
+                    g_short_then_permanent = 1;
+                    run_script(&a, idx, pre, k, 0, e, 0);
+                    g_short_then_permanent = 0;
+                }
+            }
+        }
+    }
     /* "any finite number": long all-EINTR prefixes */
     { static const long LONGS[] = {1000, 100000, 16777221L, 4294967301L};       /* ..., 2^24+5, 2^32+5 (thorough: counters of any width) */
       int nl = a.thorough ? 4 : 3;
@@ -298,6 +329,7 @@ int main(int argc, char **argv)
     emit_stat("os_entropy_calls_observed", n_os_calls); emit_stat("scripts_through_prng_init", n_prng); emit_stat("long_prefix_scripts", n_long);
     emit_stat("scripts_where_os_call_count_differs_from_script_length", n_count_differs); emit_stat("fd_census_comparisons", n_fd_census); emit_stat("prng_usability_runs_after_fault", n_usable);
     emit_stat("scripts_that_reached_the_variants_primitive", n_prim_used); emit_stat("scripts_in_the_errno_sweep", n_errno_sweep); emit_stat("pauses_requested_between_attempts", n_sleeps);
+    emit_stat("scripts_with_short_count_before_permanent_error", n_short_then_permanent); emit_stat("of_those_reported_as_failure", n_short_reached_error);
     if (n_eval > 10 && n_prim_used == 0 && !g_nviol) {      /* the instrument never saw the call it is supposed to script */
         fprintf(stderr, "build variant %s never called its OS primitive: harness does not reach the code\n", a.mode);
         return 2;
